@@ -85,7 +85,9 @@ fn permitted(cfg: &str, op: &str, input: Option<&[u8]>, base: &Rec, rec: &Rec) -
     let is_err = rec.class != 0 && rec.class != 200;
     // for inputs that are exactly one well-formed item the conditions are evaluated on the parsed item,
     // otherwise on the bytes (a necessary condition)
-    let item = input.and_then(|i| match parse(i) {
+    // (the reference parser is recursive: the few corpus inputs nested hundreds of levels deep are judged on the bytes)
+    let shallow = |i: &[u8]| i.len() < 512 || !i[..256].iter().all(|b| matches!(b, 0x9f | 0xbf | 0x81 | 0x00));
+    let item = input.filter(|i| shallow(i)).and_then(|i| match parse(i) {
         Ok((it, used)) if used == i.len() => Some(it),
         _ => None,
     });
@@ -213,7 +215,7 @@ pub fn run(r: &Report) {
                 r.fail(
                     sub,
                     None,
-                    json!({"configuration": cfg, "op": op, "input_hex": input.map(hex), "case_index": i}),
+                    json!({"configuration": cfg, "op": op, "input_hex": input.map(|b| if b.len() <= 64 { hex(b) } else { format!("{}.. ({} bytes)", hex(&b[..64]), b.len()) }), "case_index": i}),
                     if op.starts_with("encode") {
                         // encode operations: class 0 = Ok, otherwise a code of the is_write() / is_message() predicates (see the probe)
                         format!("std+half: class {}, {} bytes / capacity, digest {:x}; {}: class {}, {} bytes / capacity, digest {:x}", a.class, a.pos, a.digest, cfg, b.class, b.pos, b.digest)
